@@ -38,6 +38,10 @@ type executableWorkflow struct {
 	callableFunctions map[string]schema.CallableFunction
 	dag               dgraph.DirectedGraph[*DAGItem]
 	input             schema.Scope
+	// inputLock guards the use of input by Execute. The SDK calculates the default values of an unserialized object
+	// schema on first use, without synchronisation, and the input schema is shared by all, possibly concurrent,
+	// executions of the workflow.
+	inputLock         sync.Mutex
 	stepRunData       map[string]map[string]any
 	workflowContext   map[string][]byte
 	internalDataModel *schema.ScopeSchema
@@ -73,11 +77,14 @@ func (e *executableWorkflow) Namespaces() map[string]map[string]*schema.ObjectSc
 func (e *executableWorkflow) Execute(ctx context.Context, serializedInput any) (outputID string, outputData any, err error) { //nolint:gocognit
 	// First, we unserialize the input. This makes sure we didn't get garbage data.
 
+	e.inputLock.Lock()
 	unserializedInput, err := e.input.Unserialize(serializedInput)
 	if err != nil {
+		e.inputLock.Unlock()
 		return "", nil, fmt.Errorf("invalid workflow input (%w)", err)
 	}
 	reSerializedInput, err := e.input.Serialize(unserializedInput)
+	e.inputLock.Unlock()
 	if err != nil {
 		return "", nil, fmt.Errorf("failed to reserialize workflow input (%w)", err)
 	}
